@@ -108,7 +108,11 @@ func (g *G) withClause() ([]Tok, *ast.WithClause) {
 			it = cat(it, sym("("), commaJoin(cs), sym(")"))
 		}
 		it = cat(it, g.kw("AS"))
-		switch g.intn(6, "materialized") {
+		mk := g.intn(6, "materialized")
+		if g.F.NoMaterialized {
+			mk = 0
+		}
+		switch mk {
 		case 4:
 			it = cat(it, g.kw("MATERIALIZED"))
 			v := true
@@ -248,6 +252,9 @@ func (g *G) Select(small, tail bool) ([]Tok, *ast.SelectStatement) {
 		s.Distinct = true
 		g.use("distinct")
 	case 8:
+		if g.F.NoDistinctOn {
+			break
+		}
 		g.use("distinct_on")
 		ts, ns := g.args(1 + g.intn(2, "ndon"))
 		t = cat(t, g.kw("DISTINCT", "ON"), sym("("), commaJoin(ts), sym(")"))
@@ -385,7 +392,11 @@ func (g *G) Select(small, tail bool) ([]Tok, *ast.SelectStatement) {
 			ng := 1 + g.intn(2, "ngroup")
 			var gs [][]Tok
 			for i := 0; i < ng; i++ {
-				switch g.intn(8, "groupkind") {
+				gk := g.intn(8, "groupkind")
+				if g.F.NoGroupingOps {
+					gk = 0
+				}
+				switch gk {
 				case 5:
 					g.use("rollup")
 					ts, ns := g.args(1 + g.intn(2, "nroll"))
@@ -445,7 +456,7 @@ func (g *G) Select(small, tail bool) ([]Tok, *ast.SelectStatement) {
 				t = cat(t, g.kw("OFFSET"), sym(strconv.Itoa(o)))
 				s.Offset = &o
 			}
-		case lim == 7:
+		case lim == 7 && !g.F.NoFetch:
 			g.use("fetch")
 			if g.chance(50, "fetchoffset") {
 				o := rapid.SampledFrom([]int{0, 5, 20}).Draw(g.T, "offset")
@@ -469,7 +480,7 @@ func (g *G) Select(small, tail bool) ([]Tok, *ast.SelectStatement) {
 			}
 			s.Fetch = f
 		}
-		if len(s.From) > 0 && g.chance(8, "forclause") {
+		if len(s.From) > 0 && !g.F.NoForClause && g.chance(8, "forclause") {
 			g.use("for_clause")
 			lt := rapid.SampledFrom([]string{"UPDATE", "SHARE", "NO KEY UPDATE", "KEY SHARE"}).Draw(g.T, "locktype")
 			fc := &ast.ForClause{LockType: lt}
